@@ -59,6 +59,7 @@ fn preds4() -> Vec<(String, usize)> {
 }
 
 fn check_graphs(run: &Run, rules: &[&asp::Rule], texts: &[&str], private_masks: &[u32]) {
+    let _w = run.watch("program", "program", &texts.join(" "));
     let prog = asp::Program { rules: rules.iter().map(|r| (*r).clone()).collect() };
     run.state();
     let tight = prog.is_tight();
@@ -360,6 +361,7 @@ pub fn run(run: &Run) {
     }
     run.set_extra("regularity_rules", json!(rtexts.len()));
     rtexts.par_iter().for_each(|t| {
+        let _w = run.watch("program", "program", t);
         let Ok(p) = t.parse::<asp::Program>() else { return };
         run.state();
         run.trans(1);
@@ -386,6 +388,7 @@ pub fn run(run: &Run) {
     run.set_extra("enforcement_tasks", json!(tasks.len()));
     let f = Flags { dec: anthem::verif::Decomposition::Sequential, simplify: true, eqb: true };
     tasks.par_iter().for_each(|t| {
+        let _w = run.watch("task", "task_key", &t.key());
         for bypass in [false, true] {
             let Some(c) = reference_conditions(t, bypass) else { continue };
             run.state();
